@@ -36,6 +36,7 @@ func staticEventNames(fns map[string]*ssa.Function) []string {
 	}
 	for k := 0; k < 16; k++ {
 		add(fmt.Sprintf("range.next#%d", k)) // a step of the k-th loop (ordinal as in loop#k)
+		add(fmt.Sprintf("map.next#%d", k))
 	}
 	for _, n := range extraNames {
 		add(n)
